@@ -122,6 +122,40 @@ CHECKS = {
         technique='Lean 4 engine model (step and chunked simulators) + per-simulator correspondence; paired-run oracle under the stated hypothesis',
         ref='4 (C12)',
         note='The simulation-relation theorem between the two model simulators is not yet proved (evidence.unproved).'),
+    'C13': dict(
+        text='Proof that 50 hand models of indicator kernels (sma, ema, wma, smma, wilders, dema, tema, trima, rsi, macd x3, stoch/stochf, '
+             'cci, mfi, stddev/var, bollinger x3, keltner x3, donchian x3, willr, roc, mom, obv, tr/atr, dm, di, adx, 4 price transforms; '
+             'same loops, seeds and index arithmetic as the Python kernels, NaN = none) are causal for ALL inputs: the first k rows '
+             'depend only on the first k candles, for every source type; minmax is causal except in its last `order` rows. For the '
+             'kernels that are NOT causal on the unchanged tree (rma, dx, emd, lrsi, er, mab) a kernel-evaluated witness is proved '
+             'instead and the deviation is a known finding. Tie: every kernel is compared (exact rationals vs floats, 1e-7) with the '
+             'real indicator on seeded candles on every run. All ~166 sequential public indicators, modelled or not, are searched by '
+             'the prefix oracle ind(c[:k]) == ind(c)[:k].',
+        technique='Lean 4: Causal closure lemmas for scan/prefix-map/trailing-window combinators, decide +kernel witnesses; line-protocol correspondence with the real indicators; all-indicator prefix oracle in forked processes',
+        ref='4 (C13)',
+        note='Indicators outside the modelled list are covered by search only (listed in evidence coverage.oracle.notes). Kernels are over Rat with NaN-free input; rma_fast\'s isnan branch is not modelled. Open findings C13-F1..F7 (rma, dx, emd, lrsi, er, mab, alligator).'),
+    'C14': dict(
+        text='Proof (C14.standard_wrapper) that for EVERY length-preserving kernel under the standard wrapper (slice_candles + '
+             '`res if sequential else res[-1]`) the sequential result has one entry per candle, its last entry is the non-sequential '
+             'result for <= 240 candles, and the non-sequential result is always the last sequential entry on the trailing 240 candles; '
+             'length preservation proved for every modelled kernel; C14.table_standard: the wrapper shape of all 174 public indicators, '
+             're-read from the AST on every run, is standard (150) or one of 18 pinned documented exemptions (minmax order+1, '
+             'separately computed modes, None-for-NaN, early returns) or has no sequential mode (6). Length preservation of unmodelled '
+             'kernels and the three clauses are examined on the real code for all indicators at lengths 10..481.',
+        technique='Lean 4 generic wrapper theorem + decide +kernel over a table regenerated by py2lean/indwrappers.py (AST walk) with a committed baseline; all-indicator length/last/window oracle',
+        ref='4 (C14)',
+        note='Exempt wrappers are pinned by their exact extracted shape (a cosmetic edit of such a return statement is reported as a broken tie). Open findings C14-F1..F6 (squeeze_momentum, adx, cfo, donchian, mfi, tsf on short inputs).'),
+    'C15': dict(
+        text='Proofs against independent textbook definitions (Spec/Ind.lean) for ALL inputs: sma = window mean (convolution form), '
+             'wma = linearly weighted mean, roc/mom/transforms/obv = their formulas, donchian = window max/min with ordering and '
+             'enclosure, willr/%K/rsi/mfi in range, ema/atr seed = mean of first p and exact recurrence step, wilders/rma step, '
+             'seed independence ((1-a)^(i+1) x seed difference), tr/atr/stddev non-negative, bollinger/keltner ordered for every '
+             'non-negative sqrt, sma/wma/ema homogeneous, macd/dema/tema as compositions, and ma() dispatches every matype to the '
+             'function its docstring names (table re-read from ma.py on every run). The real indicators are compared with plain-Python '
+             'textbook references for periods 2..60, all sources, constant/monotone/alternating/huge/tiny prices.',
+        technique='Lean 4 theorems over hand kernels tied by correspondence; generated ma dispatch table + decide +kernel; textbook-reference oracle (exact / step / after seed decay), ranges, orderings, homogeneity, selector equality',
+        ref='4 (C15)',
+        note='sqrt is abstract in the kernels (theorems for every non-negative sqrt; the driver uses an integer square root to 1e-20). Not proved: var >= 0, cci/trima/stoch exact equality to Spec (covered by the reference oracle). Open findings C15-F1 (di out of range from its sum/mean seeds) and C15-F2 (smma NaN by overflow on long sequential input).'),
     'C17': dict(
         text='Proof over the generated size_to_qty / risk_to_qty / risk_to_size / floor_with_precision / round_decimals_down / '
              'limit_stop_loss / max_timeframe and the three timeframe tables: never overspends (fees included), never over-risks, '
